@@ -154,8 +154,11 @@ def build_request(case, stack, app_options=None):
             del env['REMOTE_ADDR']
             del env['REMOTE_PORT']
         return env
-    scope = A.make_scope('GET', case['path'], case['query'], headers=headers, scheme=case['scheme'],
-                         server=server, client=client, root_path=case['root_path'])
+    ws = bool(case.get('asgi_ws'))
+    scope = A.make_scope('GET', case['path'], case['query'], headers=headers,
+                         scheme={'http': 'ws', 'https': 'wss'}[case['scheme']] if ws else case['scheme'],
+                         server=server, client=client, root_path=case['root_path'],
+                         typ='websocket' if ws else 'http')
     if client is None:
         del scope['client']
     if case.get('asgi_no_server'):
@@ -418,7 +421,7 @@ def e2e(case, snaps, rng, tainted=()):
     table = make_table(case)
     tab = dict(table)
     for stack in STACKS:
-        if stack not in snaps:
+        if stack not in snaps or (stack == 'asgi' and case.get('asgi_ws')):
             continue
         direct = snaps[stack]
         app, sink = apps()[stack]
@@ -820,6 +823,8 @@ def random_case(rng, p_mut=0.35):
     c['query'] = rng.choice(['', '', 'a=1', 'a=1&b=2,3', 'q=%20x', 'flag'])
     if rng.random() < 0.05:
         c['asgi_no_server'] = True
+    if rng.random() < 0.2:
+        c['asgi_ws'] = True
     for name, g in GENS.items():
         if rng.random() < P_PRESENT.get(name, 0.25):
             v = g(rng)
@@ -854,6 +859,10 @@ def exhaustive_values(tier):
         yield ('If-Match',), '*', None
         yield ('If-None-Match',), ['"t%d"', 'W/"t%d"'][i % 2] % i, None
         yield ('Host',), ['localhost', 'srv', 'intranet:8080', 'db-1'][i % 4], {'scheme': ['http', 'https'][i % 2]}
+        yield ('Host',), ['chat.example.com', '[2001:db8::7]', '192.0.2.7', 'chat.example.com:'][i % 4], \
+            {'scheme': ['http', 'https'][(i // 4) % 2], 'asgi_ws': True}
+        yield (), '', {'scheme': ['http', 'https'][i % 2], 'asgi_ws': True,
+                       'server': [['ws.example', 80], ['ws.example', 443], ['ws.example', 8000]][i % 3]}
         yield ('X-Real-IP',), IPV4S[i % len(IPV4S)], None
         yield ('X-Forwarded-For',), ', '.join(IPV4S[:1 + i % 3] + (['10.1.2.3'] if i % 2 else [])), None
         yield ('Range',), 'bytes=%d-%d' % (i, i), None
@@ -868,6 +877,9 @@ def exhaustive_values(tier):
         for j, p in enumerate(ports):
             for scheme in (('http', 'https') if deep else (('http', 'https')[(i + j) % 2],)):
                 yield ('Host',), h + p, {'scheme': scheme}
+            # the same table with a WebSocket connection scope on the ASGI side (ws for http, wss for https)
+            for scheme in (('http', 'https') if deep else (('http', 'https')[(i + j + 1) % 2],)):
+                yield ('Host',), h + p, {'scheme': scheme, 'asgi_ws': True}
     # entity-tag lists: sequences of <= 3 atoms
     atoms = ['"a"', 'W/"a"', '""', '"a,b"', 'W/"x y"', '*', 'w/"a"', 'a', '"\xe9"', '"a\\"', '', 'W/""']
     seps = [',', ', ', ' , '] if deep else [',', ', ']
@@ -1004,7 +1016,7 @@ class Runner:
             self.merge(C2)
             findings += f2
         rec.case(repr((case['scheme'], case['server'], case['client'], case['root_path'], case['path'], case['query'],
-                       case['headers'], case.get('asgi_no_server'))) if nontrivial(case) else None)
+                       case['headers'], case.get('asgi_no_server'), case.get('asgi_ws'))) if nontrivial(case) else None)
         self.n += 1
         if findings:
             self.report(case, findings)
@@ -1075,7 +1087,8 @@ BRANCH_FLOORS = [
     'fwd.valid', 'fwd.multi_hop', 'fwd.ext_param', 'fwd.quoted_pair', 'fwd.ipv6_port', 'fwd.ipv6', 'fwd.obfnode',
     'fwd.obfport', 'fwd.invalid',
     'host.reg', 'host.ipv4', 'host.ipv6', 'host.port', 'host.noport', 'host.empty_port', 'host.invalid', 'host.absent',
-    'host.default_port_http', 'host.default_port_https', 'netloc.server_default_port', 'netloc.server_other_port',
+    'host.default_port_http', 'host.default_port_https', 'host.default_port_ws', 'host.default_port_wss',
+    'ws.host_header', 'ws.no_host_header', 'netloc.server_default_port', 'netloc.server_other_port',
     'subdomain.some', 'subdomain.none', 'uri.composed', 'uri.with_query', 'uri.with_root_path',
     'fscheme.forwarded_proto', 'fscheme.forwarded_fallback', 'fscheme.xfp', 'fscheme.own',
     'fhost.forwarded_host', 'fhost.forwarded_fallback', 'fhost.xfh', 'fhost.own',
@@ -1134,6 +1147,8 @@ def run(rec):
         c['headers'] = hs
         c['root_path'] = '/api' if idx % 2 else ''
         c['query'] = 'a=1' if idx % 3 == 0 else ''
+        if idx % 5 == 0:
+            c['asgi_ws'] = True
         R.run_case(finish_case(c, random.Random(idx)), do_e2e=(idx // rec.nshards) % 23 == 0)
     rec.exhaustive = True
     if rec.shard == 0:
